@@ -109,6 +109,16 @@ def plan (tempDir : String) (a : ProcArgs) (json outputFile : Bool) : Planned :=
         else Supplier.none
       .ok ⟨opts, a.useLocalDebuginfo, supplier, interactive⟩
 
+/-- `--use-local-debuginfo`: does main.rs hand a dump of this CPU (`minidump::system_info::Cpu` variant
+    name) to `DebugInfoSymbolProvider::new`? (main.rs, fix fb88910; `none` = no rule) -/
+def localDebuginfoAllowed (cpu : String) : Bool :=
+  match Gen.localDebuginfoCpus with
+  | none => true
+  | some l => l.contains cpu
+
+/-- the `localUnsupported` of `MdModel.Cli.Cfg`: the flag was given and the rule refuses the dump's CPU -/
+def localUnsupportedOf (useLocal : Bool) (cpu : String) : Bool := useLocal && !localDebuginfoAllowed cpu
+
 /-! ### line protocol
     `cli opts <features> evil:<0|1> rec:<0|1> local:<0|1> url:<n> cache:<0|1> tmp:<0|1> to:<secs> named:<ids> legacy:<ids> noint:<0|1> json:<0|1> out:<0|1>`
     paths are abstract ids (`a,b,…` or `-`); urls `u1..un`; answer:
